@@ -205,9 +205,10 @@ fn print_bof<W: Write>(
         // Bound may not match when, at example, we are waiting to print
         // field 4 but we are at field 2.
         if b.matches(curr_field).unwrap() {
+            // inside a range, fields are separated by the delimiter
             let prepend_delimiter = !prev_chunk_may_be_truncated
                 && curr_field > 1
-                && (opt.join || (b.l != Side::Some(curr_field)));
+                && b.l != Side::Some(curr_field);
 
             let delimiter = opt.replace_delimiter.unwrap_or(opt.delimiter);
 
@@ -220,6 +221,11 @@ fn print_bof<W: Write>(
 
             if field_complete && b.r == Side::Some(curr_field) {
                 bof_idx += 1;
+
+                // when joining, every bound but the last is followed by the delimiter
+                if opt.join && !b.is_last {
+                    stdout.write_all(&[delimiter])?;
+                }
             }
         }
     }
@@ -259,6 +265,10 @@ fn print_filler_or_fallbacks<W: Write>(
         };
 
         stdout.write_all(output)?;
+
+        if opt.join && !b.is_last {
+            stdout.write_all(&[opt.replace_delimiter.unwrap_or(opt.delimiter)])?;
+        }
     }
 
     Ok(())
